@@ -229,3 +229,41 @@ V("C07-return-stale", ["C07"], "factor_analysis",
   "            latent_z = self.update_z(X=X, y=y, latent_x=latent_x, latent_y=latent_y, latent_z=latent_z, n_acc=n_acc, f_acc=f_acc)\n        return latent_z",
   "            new_z = self.update_z(X=X, y=y, latent_x=latent_x, latent_y=latent_y, latent_z=latent_z, n_acc=n_acc, f_acc=f_acc)\n        return latent_z",
   "ISV enrolment returns the buffer name instead of the result (same object here: update_z fills it in place)", kind="benign", may_be_undecided=True)
+
+# ----------------------------------------------------------------------------- C08
+V("C08-offset-plus", ["C08", "C11"], "linear_scoring", "b = sum_px[:, :, :] - n[:, :, None] * (ubm.means[None, :, :] + test_channel_offsets)", "b = sum_px[:, :, :] - n[:, :, None] * (ubm.means[None, :, :] - test_channel_offsets)", "channel offset enters with the wrong sign")
+V("C08-offset-unweighted", ["C08", "C11"], "linear_scoring", "b = sum_px[:, :, :] - n[:, :, None] * (ubm.means[None, :, :] + test_channel_offsets)", "b = sum_px[:, :, :] - n[:, :, None] * ubm.means[None, :, :] - test_channel_offsets", "channel offset not weighted by the counts")
+V("C08-ubm-mean-plus", ["C08"], "linear_scoring", "a = (models_means - ubm.means) / ubm.variances", "a = (models_means + ubm.means) / ubm.variances", "UBM mean added in the model factor")
+V("C08-distributed", ["C08"], "linear_scoring", "b = sum_px[:, :, :] - n[:, :, None] * (ubm.means[None, :, :] + test_channel_offsets)", "b = sum_px[:, :, :] - n[:, :, None] * ubm.means[None, :, :] - n[:, :, None] * test_channel_offsets", "distributed product", kind="benign")
+V("C08-norm-by-n", ["C08"], "linear_scoring", "b = np.where(abs(t) <= EPSILON, 0, b[:, :] / t[None, :])", "b = np.where(abs(t) <= EPSILON, 0, b[:, :] / n.sum(axis=1)[None, :])", "normalised by the summed responsibilities")
+V("C08-guard-removed", ["C08", "C13"], "linear_scoring", "b = np.where(abs(t) <= EPSILON, 0, b[:, :] / t[None, :])", "b = b[:, :] / t[None, :]", "zero-frame guard removed")
+V("C08-guard-inverted-form", ["C08"], "linear_scoring", "b = np.where(abs(t) <= EPSILON, 0, b[:, :] / t[None, :])", "b = np.where(abs(t) > EPSILON, b[:, :] / t[None, :], 0)", "guard written the other way round", kind="benign")
+V("C08-always-normalised", ["C08"], "linear_scoring", "    if frame_length_normalization:\n        b = np.where(", "    if True:\n        b = np.where(", "normalisation applied regardless of the flag")
+V("C08-unwrap-late", ["C08"], "linear_scoring",
+  "    if ubm.trainer == 'map':\n        ubm = ubm.ubm\n    if isinstance(test_stats, GMMStats):\n        test_stats = [test_stats]",
+  "    ubm_means = ubm.means\n    if ubm.trainer == 'map':\n        ubm = ubm.ubm\n    if isinstance(test_stats, GMMStats):\n        test_stats = [test_stats]",
+  "harmless early read that is not used", kind="benign")
+V2("C08-unwrap-late-used", ["C08"], [
+    dict(module="linear_scoring", old="    if ubm.trainer == 'map':\n        ubm = ubm.ubm\n    if isinstance(test_stats, GMMStats):", new="    ubm_means = ubm.means\n    if ubm.trainer == 'map':\n        ubm = ubm.ubm\n    if isinstance(test_stats, GMMStats):"),
+    dict(module="linear_scoring", old="a = (models_means - ubm.means) / ubm.variances", new="a = (models_means - ubm_means) / ubm.variances"),
+  ], "UBM means read before the MAP -> prior unwrapping and used in the model factor")
+V("C08-unwrap-removed", ["C08"], "linear_scoring", "    if ubm.trainer == 'map':\n        ubm = ubm.ubm\n", "", "MAP machine no longer replaced by its prior")
+V("C08-stats-not-wrapped", ["C08"], "linear_scoring", "    if isinstance(test_stats, GMMStats):\n        test_stats = [test_stats]\n", "", "single statistics object no longer wrapped")
+V("C08-variance-dropped", ["C08", "C15"], "linear_scoring", "a = (models_means - ubm.means) / ubm.variances", "a = models_means - ubm.means", "variance normalisation dropped")
+
+# ----------------------------------------------------------------------------- C11
+V("C11-transform-bare-stats", ["C11"], "factor_analysis", "return self.estimate_ux([ubm_projected_X])", "return self.estimate_ux(ubm_projected_X)", "revert of fix 90e07b2: bare GMMStats passed where a list is iterated")
+V("C11-enroll-bare-stats", ["C11"], "factor_analysis", "return self.enroll([self.ubm.acc_stats(X)])", "return self.enroll(self.ubm.acc_stats(X))", "enroll_using_array passes bare statistics", count=2)
+V("C11-score-rescaled", ["C11"], "factor_analysis", "return self.score(model, [self.ubm.acc_stats(d) for d in data])", "return self.score(model, [self.ubm.acc_stats(d) for d in data]) / len(data)", "array-level score post-processed")
+V("C11-score-recentred", ["C11"], "factor_analysis", "return self.score(model, [self.ubm.acc_stats(d) for d in data])", "return self.score(model, [self.ubm.acc_stats(d - d.mean(axis=0)) for d in data])", "array re-centred before projection")
+V("C11-score-local", ["C11"], "factor_analysis", "return self.score(model, [self.ubm.acc_stats(d) for d in data])", "stats = [self.ubm.acc_stats(d) for d in data]\n        return self.score(model, stats)", "statistics bound to a local first", kind="benign")
+V("C11-offset-first-only", ["C11"], "factor_analysis", "        x = self.estimate_x(data)\n        Ux = self._U @ x\n        z = self.D * latent_z + self.mean_supervector", "        x = self.estimate_x(data[:1])\n        Ux = self._U @ x\n        z = self.D * latent_z + self.mean_supervector", "channel factor estimated from the first statistics only")
+V("C11-no-frame-norm", ["C11"], "factor_analysis", "Ux.reshape((self.ubm.n_gaussians, self.feature_dimension)), frame_length_normalization=True)[0][0]", "Ux.reshape((self.ubm.n_gaussians, self.feature_dimension)), frame_length_normalization=False)[0][0]", "frame normalisation switched off", count=2)
+V("C11-offset-negated", ["C11"], "factor_analysis", "        Ux = self._U @ x\n        zy = ", "        Ux = -(self._U @ x)\n        zy = ", "channel offset negated in JFA scoring")
+V("C11-no-compensation", ["C11"], "factor_analysis", "data_sum, Ux.reshape((self.ubm.n_gaussians, self.feature_dimension)), frame_length_normalization=True)[0][0]", "data_sum, 0, frame_length_normalization=True)[0][0]", "no channel compensation", count=2)
+V("C11-client-mean-minus", ["C11"], "factor_analysis", "z = self.D * latent_z + self.mean_supervector", "z = self.mean_supervector - self.D * latent_z", "client offset subtracted from the UBM mean")
+V("C11-client-V-missing", ["C11"], "factor_analysis", "zy = self.V @ latent_y + self.D * latent_z + self.mean_supervector", "zy = self.D * latent_z + self.mean_supervector", "JFA client mean without V y")
+V("C11-pool-skips-one", ["C11"], "factor_analysis", "            data_sum = sum(data[1:], start=data[0])", "            data_sum = sum(data[2:], start=data[0])", "pooling skips the second statistics object", count=2)
+V("C11-pool-inplace", ["C11", "C19"], "factor_analysis", "            data_sum = sum(data[1:], start=data[0])", "            data_sum = functools.reduce(operator.iadd, data)", "probe statistics pooled in place (mutates the caller's first object)", count=2)
+V("C11-fnx-first-only", ["C11"], "factor_analysis", "sum_px_sum = sum((x_i_s.sum_px for x_i_s in X_i))", "sum_px_sum = X_i[0].sum_px", "first-order statistics of the first session only")
+V("C11-other-ubm", ["C11"], "factor_analysis", "self.ubm, data_sum, Ux.reshape", "self.ubm.ubm if self.ubm.trainer == 'map' else self.ubm, data_sum, Ux.reshape", "explicit unwrapping that linear_scoring does itself", kind="benign", count=2, may_be_undecided=True)
